@@ -299,6 +299,9 @@ def _atomic_body(kind, keyform, fault, where):
         value = EvilSeq(good, 0, True, None)
     elif fault == 'next-raises':
         value = EvilSeq(good, 0, False, where)
+    elif fault == 'generator':
+        value = (x_ for x_ in good)          # a one-shot iterable without len(): either written completely or refused, never half
+        expect_fail = None
     elif fault == 'none':
         expect_fail = False
     else:
@@ -308,6 +311,12 @@ def _atomic_body(kind, keyform, fault, where):
         raised = None
     except Exception as e:
         raised = e
+    if expect_fail is None:
+        if raised is None:
+            if not _is_model(v, old, key, good): return H.fail('%s / %s: generator value written wrongly: %r' % (kind, keyform, list(v)))
+            return True
+        if not _unchanged(v, st) or v.fingerprint() != fp: return H.fail('%s / %s: generator value refused (%r) but the vector changed: %r' % (kind, keyform, raised, list(v)))
+        return True
     if expect_fail:
         if raised is None:
             if isinstance(value, EvilSeq) and _is_model(v, old, key, good): return True    # the fault point was never reached: a complete write is fine
@@ -336,7 +345,7 @@ def _is_model(v, old, key, vals):
     return H.same_list(list(v), m) or list(v) == m
 
 
-FAULTS = ['none', 'bad-index', 'bad-type', 'promote-then-bad', 'too-short', 'too-long', 'len-raises', 'iter-raises', 'next-raises']
+FAULTS = ['none', 'generator', 'bad-index', 'bad-type', 'promote-then-bad', 'too-short', 'too-long', 'len-raises', 'iter-raises', 'next-raises']
 KEYFORMS = ['slice', 'mask', 'index', 'index-vector', 'neg-slice']
 
 
@@ -496,7 +505,7 @@ def obligations(tier):
                             smoke=[[2, 0, False], [3, 5 if form.startswith('pair') else 0, False]]))
     for kind in ('int', 'float', 'str', 'intn'):
         obs.append(dict(name='atomic[%s]' % kind, fn='h_atomic', config={'kind': kind}, budget=60,
-                        bounds='5 key forms x 9 fault kinds (bad index, bad type first/later, promote-then-bad, short, long, __len__/__iter__/k-th __next__ raising) x fault position 0..2',
+                        bounds='5 key forms x 10 fault kinds (bad index, bad type first/later, promote-then-bad, short, long, __len__/__iter__/k-th __next__ raising) x fault position 0..2',
                         smoke=[[0, 2, 1], [2, 1, 0], [0, 8, 1]]))
     for form in ('cell-name', 'cell-index', 'row', 'column', 'column-scalar', 'region'):
         obs.append(dict(name='table[%s]' % form, fn='h_table_assign', config={'form': form}, budget=120 if q else 400,
